@@ -121,6 +121,12 @@ class TranslateTransform(Transform):
             raise DaeMalformedError("Translate node requires three float values")
         return TranslateTransform(floats[0], floats[1], floats[2], node)
 
+    def save(self):
+        """Saves x, y, z back to :attr:`xmlnode` and recomputes :attr:`matrix`"""
+        self.matrix = numpy.identity(4, dtype=numpy.float32)
+        self.matrix[:3, 3] = [self.x, self.y, self.z]
+        self.xmlnode.text = ' '.join([str(self.x), str(self.y), str(self.z)])
+
     def __str__(self):
         return '<TranslateTransform (%s, %s, %s)>' % (self.x, self.y, self.z)
 
@@ -168,6 +174,11 @@ class RotateTransform(Transform):
             raise DaeMalformedError("Rotate node requires four float values")
         return RotateTransform(floats[0], floats[1], floats[2], floats[3], node)
 
+    def save(self):
+        """Saves x, y, z, angle back to :attr:`xmlnode` and recomputes :attr:`matrix`"""
+        self.matrix = makeRotationMatrix(self.x, self.y, self.z, self.angle * numpy.pi / 180.0)
+        self.xmlnode.text = ' '.join([str(self.x), str(self.y), str(self.z), str(self.angle)])
+
     def __str__(self):
         return '<RotateTransform (%s, %s, %s) angle=%s>' % (self.x, self.y, self.z, self.angle)
 
@@ -214,6 +225,14 @@ class ScaleTransform(Transform):
             raise DaeMalformedError("Scale node requires three float values")
         return ScaleTransform(floats[0], floats[1], floats[2], node)
 
+    def save(self):
+        """Saves x, y, z back to :attr:`xmlnode` and recomputes :attr:`matrix`"""
+        self.matrix = numpy.identity(4, dtype=numpy.float32)
+        self.matrix[0, 0] = self.x
+        self.matrix[1, 1] = self.y
+        self.matrix[2, 2] = self.z
+        self.xmlnode.text = ' '.join([str(self.x), str(self.y), str(self.z)])
+
     def __str__(self):
         return '<ScaleTransform (%s, %s, %s)>' % (self.x, self.y, self.z)
 
@@ -248,6 +267,10 @@ class MatrixTransform(Transform):
         floats = numpy.fromstring(node.text, dtype=numpy.float32, sep=' ')
         return MatrixTransform(floats, node)
 
+    def save(self):
+        """Saves :attr:`matrix` back to :attr:`xmlnode`"""
+        self.xmlnode.text = ' '.join(map(str, numpy.asarray(self.matrix).flat))
+
     def __str__(self):
         return '<MatrixTransform>'
 
@@ -281,16 +304,7 @@ class LookAtTransform(Transform):
         if len(eye) != 3 or len(interest) != 3 or len(upvector) != 3:
             raise DaeMalformedError('Corrupted lookat transformation node')
 
-        self.matrix = numpy.identity(4, dtype=numpy.float32)
-        """The resulting transformation matrix. This will be a numpy.array of size 4x4."""
-
-        front = toUnitVec(numpy.subtract(eye, interest))
-        side = numpy.multiply(-1, toUnitVec(numpy.cross(front, upvector)))
-        up = numpy.cross(front, side)
-        self.matrix[0:3, 0] = side
-        self.matrix[0:3, 1] = up
-        self.matrix[0:3, 2] = front
-        self.matrix[0:3, 3] = eye
+        self._computeMatrix()
 
         self.xmlnode = xmlnode
         """ElementTree representation of the transform."""
@@ -304,6 +318,24 @@ class LookAtTransform(Transform):
         if len(floats) != 9:
             raise DaeMalformedError("Lookat node requires 9 float values")
         return LookAtTransform(floats[0:3], floats[3:6], floats[6:9], node)
+
+    def _computeMatrix(self):
+        eye, interest, upvector = self.eye, self.interest, self.upvector
+        self.matrix = numpy.identity(4, dtype=numpy.float32)
+        """The resulting transformation matrix. This will be a numpy.array of size 4x4."""
+
+        front = toUnitVec(numpy.subtract(eye, interest))
+        side = numpy.multiply(-1, toUnitVec(numpy.cross(front, upvector)))
+        up = numpy.cross(front, side)
+        self.matrix[0:3, 0] = side
+        self.matrix[0:3, 1] = up
+        self.matrix[0:3, 2] = front
+        self.matrix[0:3, 3] = eye
+
+    def save(self):
+        """Saves eye, interest, upvector back to :attr:`xmlnode` and recomputes :attr:`matrix`"""
+        self._computeMatrix()
+        self.xmlnode.text = ' '.join(map(str, numpy.concatenate((self.eye, self.interest, self.upvector))))
 
     def __str__(self):
         return '<LookAtTransform>'
@@ -394,6 +426,7 @@ class Node(SceneNode):
         :attr:`matrix` if :attr:`transforms` has been modified."""
         self.matrix = numpy.identity(4, dtype=numpy.float32)
         for t in self.transforms:
+            t.save()
             self.matrix = numpy.dot(self.matrix, t.matrix)
 
         for child in self.children:
